@@ -1655,7 +1655,14 @@ class EpisodeRecord:
             new_info_inputs = {n1: v2.info.inputs[n1] for n1 in v2.inputs if (n1, n2) in connections}
             new_info = v2.info.replace(inputs=new_info_inputs)
             new_inputs = {n1: v2.inputs[n1] for n1 in v2.inputs if (n1, n2) in connections}
-            new_nodes[n2] = v2.replace(info=new_info, inputs=new_inputs)
+            new_steps = v2.steps
+            if new_steps is not None and new_steps.inputs is not None:
+                # The per-step input windows are keyed by input name: also drop those of the removed connections
+                kept_names = {i.name for i in new_info_inputs.values()}
+                new_steps = new_steps.replace(
+                    inputs=type(new_steps.inputs)({k: v for k, v in new_steps.inputs.items() if k in kept_names})
+                )
+            new_nodes[n2] = v2.replace(info=new_info, inputs=new_inputs, steps=new_steps)
         return EpisodeRecord(nodes=new_nodes)
 
     def to_graph(self) -> Graph:
